@@ -366,6 +366,10 @@ def draw_real(d):
         m = -m
     e = d.pick([0, 1, -1, 127, 128, -128, -129, 32767, 32768, -32768, -32769]) if d.pct(40) \
         else d.int(-1100, 1100)
+    if d.pct(d.cfg.get('real_wide_exp_pct', 4)):
+        # exponents that need four octets or the length-prefixed form (X.690 8.5.7.4 d)
+        e = d.pick([2 ** 23 - 1, 2 ** 23, -2 ** 23, -2 ** 23 - 1, 2 ** 24 + 1, -2 ** 24 - 3])     # (larger ones make float() of the library take minutes)
+        m = d.pick([1, 3, 255, 257]) * (-1 if m < 0 else 1)
     return (m, 2, e)
 
 
